@@ -70,7 +70,7 @@ async fn create_stream(h: &mut Harness, c: usize, id: Option<u32>, name: &str) {
         return;
     }
     let now = h.sim.now_micros();
-    let result = h.clients[c].as_ref().unwrap().create_stream(name, id).await;
+    let result = crate::routed!(h, c, create_stream(name, id));
     if !h.perm_gate("create_stream", result.is_ok(), result.as_ref().err()) {
         return;
     }
@@ -102,7 +102,7 @@ async fn update_stream(h: &mut Harness, c: usize, stream: &IdRef, name: &str) {
     if !ready(h, c) {
         return;
     }
-    let result = h.clients[c].as_ref().unwrap().update_stream(&stream.to_identifier(), name).await;
+    let result = crate::routed!(h, c, update_stream(&stream.to_identifier(), name));
     if !h.perm_gate("update_stream", result.is_ok(), result.as_ref().err()) {
         return;
     }
@@ -122,7 +122,7 @@ async fn delete_stream(h: &mut Harness, c: usize, stream: &IdRef) {
     if !ready(h, c) {
         return;
     }
-    let result = h.clients[c].as_ref().unwrap().delete_stream(&stream.to_identifier()).await;
+    let result = crate::routed!(h, c, delete_stream(&stream.to_identifier()));
     if !h.perm_gate("delete_stream", result.is_ok(), result.as_ref().err()) {
         return;
     }
@@ -151,7 +151,7 @@ async fn purge_stream(h: &mut Harness, c: usize, stream: &IdRef) {
     if !ready(h, c) {
         return;
     }
-    let result = h.clients[c].as_ref().unwrap().purge_stream(&stream.to_identifier()).await;
+    let result = crate::routed!(h, c, purge_stream(&stream.to_identifier()));
     if !h.perm_gate("purge_stream", result.is_ok(), result.as_ref().err()) {
         return;
     }
@@ -174,11 +174,7 @@ async fn create_topic(h: &mut Harness, c: usize, stream: &IdRef, id: Option<u32>
     if !ready(h, c) {
         return;
     }
-    let result = h.clients[c]
-        .as_ref()
-        .unwrap()
-        .create_topic(&stream.to_identifier(), name, partitions, compression_of(compression), replication, id, expiry_to_sdk(expiry), max_size_to_sdk(max_size))
-        .await;
+    let result = crate::routed!(h, c, create_topic(&stream.to_identifier(), name, partitions, compression_of(compression), replication, id, expiry_to_sdk(expiry), max_size_to_sdk(max_size)));
     if !h.perm_gate("create_topic", result.is_ok(), result.as_ref().err()) {
         return;
     }
@@ -231,11 +227,7 @@ async fn update_topic(h: &mut Harness, c: usize, stream: &IdRef, topic: &IdRef, 
     if !ready(h, c) {
         return;
     }
-    let result = h.clients[c]
-        .as_ref()
-        .unwrap()
-        .update_topic(&stream.to_identifier(), &topic.to_identifier(), name, compression_of(compression), replication, expiry_to_sdk(expiry), max_size_to_sdk(max_size))
-        .await;
+    let result = crate::routed!(h, c, update_topic(&stream.to_identifier(), &topic.to_identifier(), name, compression_of(compression), replication, expiry_to_sdk(expiry), max_size_to_sdk(max_size)));
     if !h.perm_gate("update_topic", result.is_ok(), result.as_ref().err()) {
         return;
     }
@@ -273,7 +265,7 @@ async fn delete_topic(h: &mut Harness, c: usize, stream: &IdRef, topic: &IdRef) 
     if !ready(h, c) {
         return;
     }
-    let result = h.clients[c].as_ref().unwrap().delete_topic(&stream.to_identifier(), &topic.to_identifier()).await;
+    let result = crate::routed!(h, c, delete_topic(&stream.to_identifier(), &topic.to_identifier()));
     if !h.perm_gate("delete_topic", result.is_ok(), result.as_ref().err()) {
         return;
     }
@@ -292,7 +284,7 @@ async fn purge_topic(h: &mut Harness, c: usize, stream: &IdRef, topic: &IdRef) {
     if !ready(h, c) {
         return;
     }
-    let result = h.clients[c].as_ref().unwrap().purge_topic(&stream.to_identifier(), &topic.to_identifier()).await;
+    let result = crate::routed!(h, c, purge_topic(&stream.to_identifier(), &topic.to_identifier()));
     if !h.perm_gate("purge_topic", result.is_ok(), result.as_ref().err()) {
         return;
     }
@@ -312,7 +304,7 @@ async fn create_partitions(h: &mut Harness, c: usize, stream: &IdRef, topic: &Id
     if !ready(h, c) {
         return;
     }
-    let result = h.clients[c].as_ref().unwrap().create_partitions(&stream.to_identifier(), &topic.to_identifier(), count).await;
+    let result = crate::routed!(h, c, create_partitions(&stream.to_identifier(), &topic.to_identifier(), count));
     if !h.perm_gate("create_partitions", result.is_ok(), result.as_ref().err()) {
         return;
     }
@@ -338,7 +330,7 @@ async fn delete_partitions(h: &mut Harness, c: usize, stream: &IdRef, topic: &Id
     if !ready(h, c) {
         return;
     }
-    let result = h.clients[c].as_ref().unwrap().delete_partitions(&stream.to_identifier(), &topic.to_identifier(), count).await;
+    let result = crate::routed!(h, c, delete_partitions(&stream.to_identifier(), &topic.to_identifier(), count));
     if !h.perm_gate("delete_partitions", result.is_ok(), result.as_ref().err()) {
         return;
     }
@@ -434,7 +426,7 @@ fn compare_topic_details(h: &mut Harness, sid: u32, t: &MTopic, d: &iggy::models
 }
 
 pub async fn check_topic(h: &mut Harness, c: usize, stream: &IdRef, topic: &IdRef) {
-    let result = h.clients[c].as_ref().unwrap().get_topic(&stream.to_identifier(), &topic.to_identifier()).await;
+    let result = crate::routed!(h, c, get_topic(&stream.to_identifier(), &topic.to_identifier()));
     if !h.perm_gate_found("get_topic", matches!(result, Ok(Some(_))), result.is_ok(), result.as_ref().err()) {
         return;
     }
@@ -453,7 +445,7 @@ pub async fn check_topic(h: &mut Harness, c: usize, stream: &IdRef, topic: &IdRe
 }
 
 pub async fn check_topics_listing(h: &mut Harness, c: usize, stream: &IdRef) {
-    let result = h.clients[c].as_ref().unwrap().get_topics(&stream.to_identifier()).await;
+    let result = crate::routed!(h, c, get_topics(&stream.to_identifier()));
     if !h.perm_gate("get_topics", result.is_ok(), result.as_ref().err()) {
         return;
     }
@@ -479,7 +471,7 @@ pub async fn check_topics_listing(h: &mut Harness, c: usize, stream: &IdRef) {
 }
 
 pub async fn check_stream(h: &mut Harness, c: usize, stream: &IdRef) {
-    let result = h.clients[c].as_ref().unwrap().get_stream(&stream.to_identifier()).await;
+    let result = crate::routed!(h, c, get_stream(&stream.to_identifier()));
     if !h.perm_gate_found("get_stream", matches!(result, Ok(Some(_))), result.is_ok(), result.as_ref().err()) {
         return;
     }
@@ -520,7 +512,7 @@ pub async fn check_stream(h: &mut Harness, c: usize, stream: &IdRef) {
 }
 
 pub async fn check_streams_listing(h: &mut Harness, c: usize) {
-    let result = h.clients[c].as_ref().unwrap().get_streams().await;
+    let result = crate::routed!(h, c, get_streams());
     if !h.perm_gate("get_streams", result.is_ok(), result.as_ref().err()) {
         return;
     }
